@@ -65,6 +65,38 @@ func (ev *Evaluator) elemObj(st *State, base string, idxV Val, et types.Type) *O
 	return o
 }
 
+// hasContent reports whether an aggregate of elements holds anything but zero
+// values (an array that was filled, as opposed to one only declared).
+func hasContent(v Val) bool {
+	a, ok := v.(*Agg)
+	if !ok {
+		return false
+	}
+	var nz func(x Val) bool
+	nz = func(x Val) bool {
+		switch y := x.(type) {
+		case *Term:
+			return !y.IsZero()
+		case *Agg:
+			for _, e := range y.Elems {
+				if nz(e) {
+					return true
+				}
+			}
+			return false
+		case Nil, nil:
+			return false
+		}
+		return true
+	}
+	for _, e := range a.Elems {
+		if nz(e) {
+			return true
+		}
+	}
+	return false
+}
+
 func ptrName(p *Ptr) string {
 	if p.Obj == nil {
 		return "nil"
@@ -75,6 +107,7 @@ func ptrName(p *Ptr) string {
 	}
 	return s
 }
+
 type SliceV struct {
 	Arr *Obj // object holding *Agg of elements (known length) or nil
 	Lo  int
@@ -131,8 +164,13 @@ type Evaluator struct {
 	Exceeded bool // the instruction budget was exhausted: results are incomplete
 	curCond  *Term
 	RootRets []RetAlt
-	ctx      string // calling context (chain of call sites)
-	siteObjs map[string]*Obj
+	// symbolicElems: a symbolic index into a local array that holds only zero
+	// values designates a named symbolic element (keeps "which index" visible,
+	// used by the kernel analyses); otherwise such accesses are weak reads /
+	// weak updates of all elements (sound for dependence questions).
+	symbolicElems bool
+	ctx           string // calling context (chain of call sites)
+	siteObjs      map[string]*Obj
 }
 
 var nmuGlobal int
@@ -694,7 +732,9 @@ func (ev *Evaluator) instr(fr *frame, ins ssa.Instruction, st *State) {
 		et := x.Type().(*types.Pointer).Elem()
 		switch p := base.(type) {
 		case *Ptr:
-			if idx >= 0 || p.Obj == nil {
+			if idx >= 0 || p.Obj == nil || !ev.symbolicElems || hasContent(getPath(st.mem[p.Obj], p.Path)) {
+				// constant index, or a symbolic index into an array with known
+				// contents: weak read/update of all its elements (path index -1)
 				fr.env[x] = &Ptr{Obj: p.Obj, Path: append(append([]int{}, p.Path...), idx)}
 			} else {
 				fr.env[x] = &Ptr{Obj: ev.elemObj(st, ptrName(p), fr.get(ev, x.Index), et)}
@@ -702,6 +742,8 @@ func (ev *Evaluator) instr(fr *frame, ins ssa.Instruction, st *State) {
 		case *SliceV:
 			if p.Arr != nil && idx >= 0 {
 				fr.env[x] = &Ptr{Obj: p.Arr, Path: []int{idx + p.Lo}}
+			} else if p.Arr != nil && (!ev.symbolicElems || hasContent(st.mem[p.Arr])) {
+				fr.env[x] = &Ptr{Obj: p.Arr, Path: []int{-1}}
 			} else if p.Arr != nil {
 				nm := p.Arr.name
 				if p.Lo != 0 {
@@ -1179,7 +1221,6 @@ func (ev *Evaluator) builtin(name string, args []Val, c *ssa.CallCommon, st *Sta
 }
 
 func isNilVal(v Val) bool { _, ok := v.(Nil); return ok }
-
 
 // Rec is a recurrence definition for a loop-carried symbol.
 type Rec struct{ Init, Step *Term }
